@@ -251,6 +251,17 @@ def run_real(case, res):
             idf = (outd / "out.idf").exists()
             if (code == 0) != idf:
                 res["violations"].append(core.viol("idf_exit_status_wrong", dict(case), observed=code, msg=f"--convert IDF exits {code}, out.idf written: {idf}", mode="convert-IDF"))
+        if case.get("unsupported_option"):
+            # an unsupported conversion format together with a valid input AND an output directory: the option is not honoured, so the
+            # exit status must be non-zero whatever else the tool does (the design is allowed to run: it is real here, not blocked)
+            for fmt in case["unsupported_option"]:
+                res["evals"] += 1
+                out2 = tmp / f"out_{fmt}"
+                code, _, _ = cli(["--convert", fmt, f, out2], block_design=False)
+                if code == 0:
+                    res["violations"].append(core.viol("zero_exit_unsupported_option", dict(case, fmt=fmt), observed=code, msg=f"valid {case['method']}/{case['pipe']} input with --convert {fmt} and an output "
+                                                       f"directory exits 0 (outputs written: {sorted(p.name for p in out2.iterdir()) if out2.exists() else []})", mode="convert-unsupported-with-output-dir"))
+            res.outcome("unsupported_option_with_output_dir")
         if case.get("unwritable"):
             # the design succeeds but the output directory cannot be created (its parent is a regular file): no output -> non-zero
             res["evals"] += 1
@@ -296,7 +307,7 @@ def main(run: core.Run, only=None):
             cases.append({"file": name, "lo": lo, "hi": min(n, lo + step)})
     run.drive(cases, family="corruptions")
     run.drive([{"kind": "modes", "file": name} for name in use], family="option-modes")
-    real = [{"kind": "real", "method": "nearsquare", "pipe": "single", "unwritable": True}, {"kind": "real", "method": "rectangle", "pipe": "coaxial", "subprocess": True}]
+    real = [{"kind": "real", "method": "nearsquare", "pipe": "single", "unwritable": True, "unsupported_option": ["EPJSON"] if quick else ["EPJSON", "XYZ", "json"]}, {"kind": "real", "method": "rectangle", "pipe": "coaxial", "subprocess": True}]
     if not quick:
         real += [{"kind": "real", "method": "birectangle", "pipe": "double_series"}, {"kind": "real", "method": "rowwise", "pipe": "single", "subprocess": True},
                  {"kind": "real", "method": "bizoned", "pipe": "single"}, {"kind": "real", "method": "constrained", "pipe": "double_parallel"}]
@@ -309,5 +320,5 @@ def main(run: core.Run, only=None):
         assumptions=["exit status observed as SystemExit of click's standalone main(), which is what the console script does; two "
                      "real runs go through a real subprocess", "for inputs the reference rejects the design step is blocked by the "
                      "harness (it must never be reached)"],
-        require_outcomes=("reference_accepts", "reference_rejects", "option_modes"),
+        require_outcomes=("reference_accepts", "reference_rejects", "option_modes", "unsupported_option_with_output_dir"),
     )
